@@ -127,6 +127,8 @@ class _Env:
         self.probes: Dict[int, List[str]] = {}
         self.loop: Optional[VirtualTimeLoop] = None
         self.nbuilt = 0
+        self.box: List[Any] = []
+        self.protos: Dict[str, Any] = {}
 
     def close(self) -> None:
         if self.loop is not None:
@@ -207,18 +209,23 @@ def run_recipe(ctx: Ctx, recipe: Dict[str, Any], cid: str) -> Case:
                     if name == "dec":
                         got = ssdp.decode_ssdp_packet(data, local, src)
                     else:
-                        box: List[Any] = []
-                        if mode == "async":
-                            if env.loop is None:
-                                env.loop = VirtualTimeLoop()
-                                asyncio.set_event_loop(env.loop)
+                        # ONE protocol object per delivery flavour lives for the whole case (as it does for the life of a
+                        # socket): state a change might keep in the protocol instance travels from datagram to datagram
+                        box = env.box
+                        del box[:]
+                        if mode not in env.protos:
+                            if mode == "async":
+                                if env.loop is None:
+                                    env.loop = VirtualTimeLoop()
+                                    asyncio.set_event_loop(env.loop)
 
-                            async def acb(rl, h):
-                                box.append((rl, h))
+                                async def acb(rl, h, _b=box):
+                                    _b.append((rl, h))
 
-                            proto = ssdp.SsdpProtocol(env.loop, async_on_data=acb)
-                        else:
-                            proto = ssdp.SsdpProtocol(None, on_data=lambda rl, h: box.append((rl, h)))  # type: ignore[arg-type]
+                                env.protos[mode] = ssdp.SsdpProtocol(env.loop, async_on_data=acb)
+                            else:
+                                env.protos[mode] = ssdp.SsdpProtocol(None, on_data=lambda rl, h, _b=box: _b.append((rl, h)))  # type: ignore[arg-type]
+                        proto = env.protos[mode]
                         proto.transport = FakeTransport()  # type: ignore[assignment]
                         proto.local_addr = local
                         proto.datagram_received(data, src)
@@ -314,7 +321,7 @@ LOCATIONS = ["http://192.168.1.7:8000/desc.xml", "http://[fe80::1]:8000/desc.xml
              "HTTP://[FE80::1]:80", "http://169.254.1.1/d", "http://[fe80::1%eth0]/", "http://[2001:db8::1]:49152/a/b.xml",
              "http://host.example/", "//[fe80::1]/p", "http://[::1]/", "http://[fe80::1]:0/", "http://[fe80::1]:080/a?",
              "http://[febf:1:2:3:4:5:6:7]/", "http://[fec0::1]/", "http://[fe80:0:0:0:0:0:0:1]:1/", "https://[fe80::9]/#",
-             "http://10.0.0.1/x y", "http://[fe80::1]/é", "\x0b", "http://[fe80::1]/?", "http://[fe80::]/", "http://[fe80::1]x:5/"]
+             "http://10.0.0.1/x y", "http://[fe80::1]/é", "http://[fe80::1]:8080/päth/ü?q=日本#z", "http://[fe80::2]/a b/c", "http://[fe80::3]/\u00a0x ", "\x0b", "http://[fe80::1]/?", "http://[fe80::]/", "http://[fe80::1]x:5/"]
 BAD_LOCATIONS = ["http://[fe80::1/", "foo", "http://[fe80::1]:99999/", "http://[fe80::1]:x/", "http://fe80::1]/",
                  "http://[fe80::zz]/", "http://[1.2.3.4]/", "http://[fe80::1]:" + "9" * 4400 + "/", "http:///x", "http://:80/"]
 USNS = ["uuid:device-1::upnp:rootdevice", "uuid:device-1", "UUID:ABC::urn:x", "Uuid:", "uuid", "urn:foo", "uuid:a:b::c::d",
@@ -330,7 +337,8 @@ def rand_name(rng) -> str:
         return respell(rng, rng.choice(COMMON))
     if c < 9:
         return "".join(rng.choice(TCHARS) for _ in range(rng.randrange(1, 12)))
-    return rng.choice(["_host", "_udn", "_port", "_timestamp", "_location_original", "_Remote_Addr", "_source"])
+    return rng.choice(["_host", "_udn", "_port", "_timestamp", "_location_original", "_Remote_Addr", "_source",
+                       "_HOST", "_Host", "_UDN", "_Udn", "_PORT", "_LOCATION_ORIGINAL", "LOCATION", "location"])
 
 
 def rand_text(rng, n: int) -> str:
@@ -491,6 +499,13 @@ def keyset_cases(rng) -> List[List[list]]:
                 # a second round: mutate the second result too, decode once more
                 ops += [[m[0], 1] + list(m[2:]) for m in mut] + [["dec", 0, spec, s0, None]]
                 out.append(ops)
+    # the same datagram delivered again and again through ONE protocol object (both flavours), other datagrams in between
+    for spec in ALPHA:
+        for mode in ("sync", "async"):
+            s0 = list(ALPHA_SRC[rng.randrange(2)])
+            d2 = ALPHA[(ALPHA.index(spec) + 1) % 3]
+            out.append([["recv", 0, spec, s0, None, mode], ["recv", 1, spec, s0, None, mode], ["recv", 2, d2, s0, None, mode],
+                        ["recv", 3, spec, s0, None, mode], ["recv", 0, spec, s0, None, mode]])
     return out
 
 
@@ -523,6 +538,11 @@ def history(rng, depth: int, with_fill: bool) -> List[list]:
 
 
 CORPUS = [
+    # F01a: a metadata name received in two spellings used to override the decoder's own value (`_host`, `_udn`)
+    {"ops": [["dec", 0, {"sl": "HTTP/1.1 200 OK", "hs": [["_udn", "a"], ["_UDN", "b"], ["_host", "x"], ["_HOST", "y"], ["ST", "t"],
+                                                         ["USN", "uuid:real::t"], ["LOCATION", "http://1.2.3.4/"]]}, ["9.9.9.9", 1900], None],
+             ["recv", 1, {"sl": "NOTIFY * HTTP/1.1", "hs": [["_Host", "x"], ["_hOST", "y"], ["_port", "1"], ["_PORT", "2"],
+                                                           ["_remote_addr", "r"], ["_REMOTE_ADDR", "s"]]}, ["fe80::2", 1900, 0, 3], None]]},
     # design-time probes: duplicate spellings, metadata-like names, scoped source with adjusted / odd locations
     {"ops": [["dec", 0, {"sl": "NOTIFY * HTTP/1.1", "hs": [["Key", "1"], ["KEY", "2"], ["LOCATION", "http://[fe80::1]:80/x?"],
                                                            ["usn", "uuid:a::b"], ["USN", "zz"]]}, ["fe80::2", 1900, 0, 3], ["1.1.1.1", 5]]]},
